@@ -687,6 +687,11 @@ class GenericPlainRegistry(Generic[QuantityT, UnitT], metaclass=RegistryMeta):
                 )
 
             name = prefix + unit_name
+            if name in self._units and name not in self._prefixed_units:
+                # A unit of that very name is defined (e.g. 'milliarcsecond' next
+                # to 'arcsecond'): keep its definition.
+                return name
+
             symbol = self.get_symbol(name, case_sensitive)
             prefix_def = self._prefixes[prefix]
             # A prefixed unit does not depend on the active contexts: register it
